@@ -263,7 +263,7 @@ func runC20(c *core.Ctx) {
 				cfg := sessmc.Config{Initiator: ini, BeginString: bs, Timed: true, HBOverride: ov, HeartBtInt: 30}
 				for _, v := range []string{"C20", "C20/pending", "C20/pending-recovery"} {
 					sp := variantDefs[v](cfg)
-					sp.depth, sp.relative = depth, true
+					sp.depth, sp.relative, sp.conform = depth, true, 200
 					if v != "C20" {
 						sp.depth = depth - 1
 					}
@@ -272,5 +272,6 @@ func runC20(c *core.Ctx) {
 			}
 		}
 	}
+	runConformance(c)
 	c.Set("depth_events", depth)
 }
